@@ -42,3 +42,31 @@ func verifTWKBHeadersRoundTrip(kind twkbGeometryType, precXY int, hasZ, hasM boo
 	err := p.parseHeaders()
 	return p.kind, p.precXY, p.hasZ, p.hasM, p.precZ, p.precM, p.hasIDs, p.hasSize, p.hasBBox, p.ctype, err
 }
+
+// Varint level: what the writer's varint routines emit, the parser's read back.
+func verifTWKBUvarintRoundTrip(v uint64) (uint64, int, error) {
+	w := twkbWriter{}
+	w.writeUnsignedVarint(v)
+	p := newTWKBParser(w.twkbContents)
+	r, err := p.parseUnsignedVarint()
+	return r, p.pos - len(w.twkbContents), err
+}
+
+func verifTWKBVarintRoundTrip(v int64) (int64, int, error) {
+	w := twkbWriter{}
+	w.writeSignedVarint(v)
+	p := newTWKBParser(w.twkbContents)
+	r, err := p.parseSignedVarint()
+	return r, p.pos - len(w.twkbContents), err
+}
+
+// The size header the writer emits for a body of bboxLen+contentsLen bytes is
+// read back by the parser as "the geometry ends exactly at the end of that body".
+func verifTWKBSizeHeaderRoundTrip(bboxLen, contentsLen int) (int, int, error) {
+	w := twkbWriter{}
+	w.writeSizeHeader(bboxLen, contentsLen)
+	data := append(w.twkbHeaders, make([]byte, bboxLen+contentsLen)...)
+	p := newTWKBParser(data)
+	err := p.parseSize()
+	return p.size, len(data), err
+}
